@@ -233,7 +233,7 @@ Proof.
         -- pose proof (next_rowid_gt _ _ Hq) as Hlt. subst r. lia.
         -- apply I3. exact Hq.
       * cbn [f_rowid]. apply entry_ok_insert_fresh. exact Hr.
-    + rewrite toks_app. unfold toks at 2. cbn [map fold_right]. unfold row_text. cbn [f_a f_b]. lia.
+    + rewrite toks_app. subst n. unfold toks at 2. cbn [map fold_right]. unfold row_text. cbn [f_a f_b]. lia.
     + rewrite app_length. cbn [length]. lia.
   - (* update *)
     destruct (find_row x (rows st)) as [old|] eqn:F; [|exact I].
@@ -256,7 +256,8 @@ Proof.
     + rewrite R1. exact I1.
     + rewrite R2. exact I2.
     + intros q Hq. destruct (R5 q Hq) as [->|[Hq1 Hq2]].
-      * cbn [f_rowid]. apply entry_ok_update. apply I3. exact Hin.
+      * change (f_rowid n) with (f_rowid old).
+        apply (entry_ok_update (idx st) (f_rowid old) (row_text old) (row_text n)). apply (I3 old Hin).
       * apply (entry_ok_other (idx st) (f_rowid q) (f_rowid old) (row_text q) (row_text n) (row_text old)).
         -- intros E. apply Hq2. f_equal. apply (nodup_slot_unique (rows st)); auto.
         -- apply I3. exact Hq1.
